@@ -15,11 +15,11 @@ PID = "C10"
 M32 = 1 << 32
 
 
-def frame(src, dst, sport, dport, seq, ack, flags, payload=b"", opts=b"", ipid=1, ttl=64):
+def frame(src, dst, sport, dport, seq, ack, flags, payload=b"", opts=b"", ipid=1, ttl=64, fragw=0x4000):
     doff = 5 + len(opts) // 4
     tcp = bytes([sport >> 8, sport & 255, dport >> 8, dport & 255]) + (seq % M32).to_bytes(4, "big") + (ack % M32).to_bytes(4, "big") + bytes([doff << 4, flags, 0xff, 0xff, 0, 0, 0, 0]) + opts + payload
     total = 20 + len(tcp)
-    ip = bytes([0x45, 0, total >> 8, total & 255, ipid >> 8, ipid & 255, 0x40, 0, ttl, 6, 0, 0]) + bytes(src) + bytes(dst)
+    ip = bytes([0x45, 0, total >> 8, total & 255, ipid >> 8, ipid & 255, fragw >> 8, fragw & 255, ttl, 6, 0, 0]) + bytes(src) + bytes(dst)
     return bytes([2, 0, 0, 0, 0, 2, 2, 0, 0, 0, 0, 1, 8, 0]) + ip + tcp
 
 
@@ -77,6 +77,9 @@ def build_traces(rng, nconn, link="eth"):
         elif shape == 3:
             cp = 80
         ic, is_ = rng.randrange(M32), rng.randrange(M32)
+        # the IPv4 fragment word of the data segments: every fifth connection sends some of them without DF, as a first
+        # fragment (MF set, offset 0: the TCP header is there and the segment is analysed like any other) or with the reserved bit
+        fw = (lambda k: (0x0000, 0x2000, 0x4000, 0x8000)[k % 4]) if c % 5 == 4 else (lambda k: 0x4000)
         ts = lambda v, e: b"\x01\x01\x08\x0a" + v.to_bytes(4, "big") + e.to_bytes(4, "big")
         synopts = b"\x02\x04\x05\xb4\x04\x02\x08\x0a" + (1000 + c).to_bytes(4, "big") + b"\x00\x00\x00\x00\x01\x03\x03\x07"
         tcpc = [frame(cip, sip, cp, sp, ic, 0, 0x02, opts=synopts, ipid=nid()),
@@ -86,13 +89,13 @@ def build_traces(rng, nconn, link="eth"):
         S = ("HTTP/1.1 200 OK\r\nServer: srv-%d\r\nContent-Type: text/plain\r\n\r\nbody %d" % (c, c)).encode()
         cut = rng.randrange(5, len(R) - 5)
         httpc = [frame(cip, sip, cp, sp, ic, 0, 0x02, ipid=nid()), frame(sip, cip, sp, cp, is_, ic + 1, 0x12, ipid=nid()),
-                 frame(cip, sip, cp, sp, ic + 1, is_ + 1, 0x18, R[:cut], ipid=nid()), frame(cip, sip, cp, sp, ic + 1 + cut, is_ + 1, 0x18, R[cut:], ipid=nid()),
-                 frame(sip, cip, sp, cp, is_ + 1, ic + 1 + len(R), 0x18, S, ipid=nid())]
+                 frame(cip, sip, cp, sp, ic + 1, is_ + 1, 0x18, R[:cut], ipid=nid(), fragw=fw(0)), frame(cip, sip, cp, sp, ic + 1 + cut, is_ + 1, 0x18, R[cut:], ipid=nid(), fragw=fw(1)),
+                 frame(sip, cip, sp, cp, is_ + 1, ic + 1 + len(R), 0x18, S, ipid=nid(), fragw=fw(3))]
         H = hello("host%d.example" % c)
         c1, c2 = sorted(rng.sample(range(5, len(H)), 2))
         tp = 443 if shape == 3 else cp
-        tlsc = [frame(cip, sip, tp, 443, ic + 1, is_ + 1, 0x18, H[:c1], ipid=nid()), frame(cip, sip, tp, 443, ic + 1 + c1, is_ + 1, 0x18, H[c1:c2], ipid=nid()),
-                frame(cip, sip, tp, 443, ic + 1 + c2, is_ + 1, 0x18, H[c2:], ipid=nid())]
+        tlsc = [frame(cip, sip, tp, 443, ic + 1, is_ + 1, 0x18, H[:c1], ipid=nid(), fragw=fw(2)), frame(cip, sip, tp, 443, ic + 1 + c1, is_ + 1, 0x18, H[c1:c2], ipid=nid(), fragw=fw(1)),
+                frame(cip, sip, tp, 443, ic + 1 + c2, is_ + 1, 0x18, H[c2:], ipid=nid(), fragw=fw(0))]
         conns.append({"tcp": tcpc, "http": httpc, "tls": tlsc})
     for crate in traces:
         ptr = [0] * nconn
